@@ -195,7 +195,10 @@ class LinkContainer(Container):
 
         self._backend.delete(item.id)
 
-    def append(self, item):
+    def _checked(self, item):
+        """
+        Returns the entity to be linked, raises if it cannot be appended here.
+        """
         if util.is_uuid(item):
             item = self._inst_item(self._backend.get_by_id(item))
 
@@ -205,13 +208,19 @@ class LinkContainer(Container):
         if item not in self._itemstore:
             raise RuntimeError("This item cannot be appended here.")
 
+        return item
+
+    def append(self, item):
+        item = self._checked(item)
         self._backend.create_link(item, item.id)
 
     def extend(self, items):
         if not isinstance(items, Iterable):
             raise TypeError("{} object is not iterable".format(type(items)))
+        # check all items first: a refused call must not link some of them
+        items = [self._checked(item) for item in items]
         for item in items:
-            self.append(item)
+            self._backend.create_link(item, item.id)
 
     def __getitem__(self, identifier):
         if isinstance(identifier, int):
